@@ -162,6 +162,14 @@ def process_suite(rep, mod, suite, model_ok, max_shrink=3):
         sl = spec.get(c.cid) if suite.spec_engine else None
         if suite.spec_engine and model_ok and sl is None:
             sl = ["<no output>"]
+        if any("rc=-999" in l for l in il):
+            # a step that did not return in the batch run: confirm it with the case run on its own (a
+            # starved machine can make a deterministic engine look blocked)
+            il_again = run_impl(suite, [c], 90).get(c.cid, ["<no output>"])
+            if not any("rc=-999" in l for l in il_again):
+                rep.notes.append("suite %s case %s: looked blocked in the batch run, ran normally on its own (machine load)" % (suite.name, c.cid))
+            il = il_again
+            impl[c.cid] = il_again
         v = suite.monitor(c, il, sl)
         if v:
             mon_fail.append((c, v, il))
